@@ -29,6 +29,8 @@ pub mod cli {
     pub mod transfer;
     #[path = "../../repo/src/bin/copia/meta.rs"]
     pub mod meta;
+    #[path = "../../repo/src/bin/copia/archive.rs"]
+    pub mod archive;
 }
 pub use cli::plan;
 
@@ -118,6 +120,7 @@ fn run(w: &str) -> i32 {
         "cli" => cli_w::run_w(w),
         "bisync" => bisync_w::run_w(w),
         "bisync-trace" => bisync_w::run_trace(w),
+        "pairid" => { match bisync_w::pair_id_injective() { Some(x) => { println!("REPRODUCED: {x}"); 1 } None => { println!("not reproduced"); 0 } } }
         "header" => proto_w::run_header(w),
         "codec" => proto_w::run_codec(w),
         "pair" => engine_w::run_pair(w),
